@@ -57,6 +57,9 @@ CLAIMED = {
  "C16": ("zone (difference-bound) abstract interpretation over go/cfg for index/slice bounds, with call-site preconditions, return summaries and verified type invariants; must-pass-through rules for pool pairing; dominance rules for reply writers",
          "'malformed input never crashes the server or affects other connections': every index and slice on strings, argument vectors, byte buffers and arrays in internal/server and internal/glob is proved within bounds on every path (about 450 sites by the analysis, the rest by reviewed exemptions naming one construct or one server-internal unit each); messages are never given an empty argument vector; reply builders that dereference their object are only called with a definitely assigned one; every pooled Lua state is released on every exit, including error returns; handleInputCommand writes exactly one reply per path; every dispatcher recovers the deadline panic",
          "independence of the replies from TCP segmentation (behaviour of the carry-over buffers over all splits)"),
+ "C17": ("JSON fragment typing: a JSON lexer over the literal pieces of every hand-assembled chain plus producer classification of every hole (resolved callees, reviewed tables); exhaustiveness of output-mode switches",
+         "'every reply is one valid JSON document': in every hand-assembled JSON chain of the server (concatenations, byte-buffer append sequences, Sprintf formats; about 190 holes) a hole between double quotes is produced by a quote-free text producer and a hole at value position by a JSON value producer, no chain ends inside a string; every OutputType switch has both arms; reply builders get a definitely assigned object and exactly one reply is written per path (R16 rules)",
+         "agreement of the RESP and JSON encodings on the conveyed result (value-level)"),
 }
 
 NOT_APPLICABLE = {
